@@ -206,9 +206,6 @@ func c04Packet(c *fw.Ctx, i int) {
 	if c.WantSample() {
 		c.Sample(map[string]any{"packet": gen.Describe(p), "marshal_size": size})
 	}
-	if !c04InPlace(c, p, want) {
-		return
-	}
 	for phase := 0; phase < 2; phase++ {
 		if phase == 1 {
 			// the same Packet value is marshalled again after the application changed it: nothing learnt about it by an earlier
@@ -300,62 +297,6 @@ func c04Packet(c *fw.Ctx, i int) {
 			}
 		}
 	}
-}
-
-// c04InPlace: the forwarding pattern - a packet is decoded from a buffer (payload and extension values then point into that
-// buffer), a few header fields are changed, and it is marshalled back into the same buffer. The layout is unchanged, so every
-// part lands where it came from; the destination "previously contained" the packet's own bytes.
-func c04InPlace(c *fw.Ctx, p *ref.Packet, wire []byte) bool {
-	if c.R.Intn(4) != 0 {
-		return true
-	}
-	buf := make([]byte, len(wire), len(wire)+8)
-	copy(buf, wire)
-	if p.PadSize > 1 && c.R.Bool() {
-		// the padding octets of a received packet are whatever the sender left there (RFC 3550 only fixes the last one)
-		c.R.Fill(buf[len(buf)-int(p.PadSize) : len(buf)-1])
-	}
-	var q rtp.Packet
-	if err := q.Unmarshal(buf); err != nil {
-		return true // C01's subject
-	}
-	q.SequenceNumber += uint16(c.R.Range(1, 1000))
-	q.Timestamp ^= uint32(c.R.U64())
-	q.SSRC = ^q.SSRC
-	q.Marker = !q.Marker
-	q.PayloadType = (q.PayloadType + 1) & 0x7F
-	for k := range q.CSRC {
-		q.CSRC[k]++
-	}
-	var want []byte
-	var err error
-	var n int
-	pv, st := fw.Guard(func() {
-		want, err = q.Marshal()
-		if err == nil {
-			n, err = q.MarshalTo(buf)
-		}
-	})
-	c.Evals(1)
-	wit := fw.W("packet", gen.Describe(p), "original_wire", fw.Trunc(fw.Hex(wire), 400))
-	if pv != nil {
-		c.Fail("C04/packet/in-place/panic/"+fw.PanicFunc(st), fmt.Sprintf("MarshalTo back into the buffer the packet was decoded from panicked: %v", pv), wit)
-		return false
-	}
-	if err != nil || len(want) != len(wire) {
-		return true // the round trip changed the size (non-canonical source): not the unchanged-layout case
-	}
-	if n != len(want) || !bytes.Equal(buf[:n], want) {
-		first := 0
-		for first < n && first < len(want) && buf[first] == want[first] {
-			first++
-		}
-		wit["got"], wit["want"] = fw.Trunc(fw.Hex(buf[:n]), 400), fw.Trunc(fw.Hex(want), 400)
-		c.Fail("C04/packet/in-place/differs-from-Marshal", fmt.Sprintf("decoded from a buffer, header fields changed, marshalled back into the same buffer: differs from Marshal() at offset %d", first), wit)
-		return false
-	}
-	c.Count("in_place_rewrites_exact", 1)
-	return true
 }
 
 func c04Header(c *fw.Ctx, i int) {
